@@ -71,6 +71,17 @@ ALL_PARAMS = [0, 1, 2, 3, 4]
 ALL_PAIRS = [(0, 1), (0, 2), (1, 2), (1, 3), (2, 3)]
 
 
+class HarnessError(RuntimeError):
+    pass
+
+
+class CommandCrashed(Exception):
+    def __init__(self, what, before):
+        Exception.__init__(self, what)
+        self.what = what
+        self.before = before
+
+
 def hx(k):
     return k.decode('ascii') if isinstance(k, bytes) else str(k)
 
@@ -135,7 +146,7 @@ def universe(root):
     jugrun.fresh()
     labels = task_labels(ALL_PARAMS, ALL_PAIRS)
     if len(hs) != len(labels) or len(set(hs)) != len(hs):
-        raise RuntimeError('C10 harness: unexpected task list from the universe jugfile')
+        raise HarnessError('C10 harness: unexpected task list from the universe jugfile')
     return dict(zip(labels, hs))
 
 
@@ -260,7 +271,7 @@ def build(spec, root):
         code, out, err = call_main(['execute', env.jugfile, '--jugdir', env.jugdir_arg(), '--will-cite',
                                     '--nr-wait-cycles', '1', '--wait-cycle-time', '0'])
         if code not in (None, 0):
-            raise RuntimeError('C10 harness: jug execute of the old jugfile failed: %r %s %s' % (code, out[-300:], err[-300:]))
+            raise HarnessError('C10 harness: jug execute of the old jugfile failed: %r %s %s' % (code, out[-300:], err[-300:]))
     s1 = env.open()
     for k in spec['dump_before_pack']:
         s1.dump(value_for(k, big), bx(k))
@@ -271,9 +282,9 @@ def build(spec, root):
     for k, failed in spec['locks']:
         lock = stale.getlock(bx(k))
         if not lock.get():
-            raise RuntimeError('C10 harness: could not take lock %s' % k)
+            raise HarnessError('C10 harness: could not take lock %s' % k)
         if failed and not lock.fail():
-            raise RuntimeError('C10 harness: could not mark lock %s failed' % k)
+            raise HarnessError('C10 harness: could not mark lock %s failed' % k)
     if spec['temps']:
         td = os.path.join(env.jd, 'tempfiles')
         os.makedirs(td, exist_ok=True)
@@ -374,7 +385,7 @@ def run_cleanup(spec, env):
     if driver == 'cli':
         code, out, err = call_main(['cleanup', env.jugfile, '--jugdir', env.jugdir_arg()] + MODE_FLAG[mode])
         if code not in (None, 0):
-            raise RuntimeError('C10 harness: jug cleanup exited with %r: %s %s' % (code, out[-300:], err[-300:]))
+            raise RuntimeError('jug cleanup exited with %r: %s %s' % (code, out[-300:], err[-300:]))
         msg = out.strip()
     elif driver == 'cmdapi':
         with process_state():
@@ -510,15 +521,28 @@ Definition check_views {S : Type} (B : backend S) (st' : S) (o : cobs) : bool :=
     seteq_b kb_eqb (map (fun k => (k, b_failed B st' k)) (b_locks B st')) lks &&
     forallb (fun kb => Bool.eqb (can_load B st' (fst kb)) (snd kb)) loads
   end.
+Definition lock_only (m : mode) : bool := match m with LocksOnly | FailedOnly => true | _ => false end.
+(* Compared: the result set, the locks with their failed marks, the four API views; in the two
+   lock-only modes also the whole non-lock part of the raw state ("nothing else is removed").
+   Not compared (not part of C10): what default / --keep-locks do to stray temp files and to
+   unrelated keys, and whether an unchanged or empty pack file is (re)written. *)
 Definition run_case (c : mode * list key * cstate * cstate * cobs) : bool :=
   match c with (m, active, before, after, o) =>
     match before, after with
     | SFile st, SFile ob =>
-        let st' := cleanup_cmd file_backend m active st in fstore_eqb st' ob && check_views file_backend st' o
+        let st' := cleanup_cmd file_backend m active st in
+        seteq_b Pos.eqb (file_results st') (file_results ob) && seteq_b kb_eqb (fs_locks st') (fs_locks ob) &&
+        (if lock_only m then file_frame_eqb st' ob else true) && check_views file_backend st' o
     | SDict st, SDict ob =>
-        let st' := cleanup_cmd dict_backend m active st in kvstore_eqb st' ob && check_views dict_backend st' o
+        let st' := cleanup_cmd dict_backend m active st in
+        seteq_b Pos.eqb (kv_results st') (kv_results ob) &&
+        seteq_b kb_eqb (lock_entries kvlk st') (lock_entries kvlk ob) &&
+        (if lock_only m then kv_frame_eqb st' ob else true) && check_views dict_backend st' o
     | SRedis st, SRedis ob =>
-        let st' := cleanup_cmd redis_backend m active st in kvstore_eqb st' ob && check_views redis_backend st' o
+        let st' := cleanup_cmd redis_backend m active st in
+        seteq_b Pos.eqb (kv_results st') (kv_results ob) &&
+        seteq_b kb_eqb (lock_entries kvlk st') (lock_entries kvlk ob) &&
+        (if lock_only m then kv_frame_eqb st' ob else true) && check_views redis_backend st' o
     | _, _ => false
     end
   end.'''
@@ -539,9 +563,15 @@ def run_spec(spec, H, root):
     keys.update(spec['dump_after_pack'])
     keys.update(k for k, _ in spec['locks'])
     before = observe(env, keys)
-    active, used, tasks, msg = run_cleanup(spec, env)
+    try:
+        active, used, tasks, msg = run_cleanup(spec, env)
+    except HarnessError:
+        raise
+    except Exception as e:                     # the command under test raised: a finding, not a harness failure
+        jugrun.fresh()
+        raise CommandCrashed('%s: %s' % (type(e).__name__, str(e)[:200]), before)
     if active != expect_active:
-        raise RuntimeError('C10 harness: the command loaded tasks %s, expected %s' % (active, expect_active))
+        raise HarnessError('C10 harness: the command loaded tasks %s, expected %s' % (active, expect_active))
     after = observe(env, keys, inproc=used, tasks=tasks)
     jugrun.fresh()
     return active, before, after, msg
@@ -572,8 +602,15 @@ def run(ck):
                 spec = gen_spec(rng, H, backend, mode, driver)
                 croot = os.path.join(root, 'c%d' % i)
                 os.makedirs(croot)
-                active, before, after, msg = run_spec(spec, H, croot)
-                shutil.rmtree(croot, ignore_errors=True)
+                try:
+                    active, before, after, msg = run_spec(spec, H, croot)
+                except CommandCrashed as e:
+                    ck.violation({'kind': 'impl-violation', 'what': 'cleanup %s on %s raised an exception' % (mode, backend),
+                                  'exception': e.what, 'spec': spec, 'before': e.before})
+                    ck.count('command raised')
+                    continue
+                finally:
+                    shutil.rmtree(croot, ignore_errors=True)
                 ids = intern(active, before, after)
                 lit = case_lit(spec, active, before, after, ids)
                 cases.append(lit)
@@ -678,7 +715,11 @@ def replay(obj):
                 bad = run_exclusive(spec, croot, obj['flags'])
                 print('flags', obj['flags'], '->', bad or 'rejected, store untouched')
                 return 1 if bad else 0
-            active, before, after, msg = run_spec(spec, H, croot)
+            try:
+                active, before, after, msg = run_spec(spec, H, croot)
+            except CommandCrashed as e:
+                print('the command raised', e.what)
+                return 1
         finally:
             if home is None:
                 os.environ.pop('HOME', None)
